@@ -261,7 +261,7 @@ func runC20(r *h.Run) {
 		return
 	}
 	layouts := legacyLayouts()
-	r.Rule = "build clause: every key set of K(U21,k) (k = 3 quick / 4 thorough) and the scaffolded sets x encoders {I32, String16, Bytes3 (Encode returns the caller's slice), VarEnc} x nil + all run patterns x all 81 option combinations over {nil,false,true} on sets <= 2 keys (8 normalised beyond) x {Opt passed by value, Opt slice spread}: keys, values and Opt (pointer identity and pointed-to Booleans) are compared with deep copies taken before, then the caller's value bytes, key slice and option cells are overwritten and every observation (additionally, with the pass-through Bytes encoder, values carved out of one caller-owned arena with spare capacity, each in turn shorter than the encoder width: the arena must be byte-identical after the build) (answers to Q, scans, Stat, String, Marshal bytes) and the deep digest must be unchanged; load clause: the marshaled stream of each of those tries and every legacy layout's stream of every key set of K(U21,2) and the legacy families: the buffer equals its copy after Unmarshal / proto.Unmarshal, then it is overwritten with 0x00, 0xff and an address-dependent pattern: observations AND deep digest unchanged; marshal clause: the bytes returned by Marshal / proto.Marshal are overwritten with the same patterns: observations, digest and a second Marshal unchanged. A state is a distinct (stream, layout) resp. build input"
+	r.Rule = "build clause: every key set of K(U21,k) (k = 3 quick / 4 thorough) and the scaffolded sets x encoders {I32, String16, Bytes3 (Encode returns the caller's slice), VarEnc, LenBytes and Dummy over [][]byte values (encoders that are not the identity on the caller's byte slices)} x nil + all run patterns x all 81 option combinations over {nil,false,true} on sets <= 2 keys (8 normalised beyond) x {Opt passed by value, Opt slice spread}: keys, values and Opt (pointer identity and pointed-to Booleans) are compared with deep copies taken before, then the caller's value bytes, key slice and option cells are overwritten and every observation (additionally, with the pass-through Bytes encoder, values carved out of one caller-owned arena with spare capacity, each in turn shorter than the encoder width: the arena must be byte-identical after the build) (answers to Q, scans, Stat, String, Marshal bytes) and the deep digest must be unchanged; load clause: the marshaled stream of each of those tries and every legacy layout's stream of every key set of K(U21,2) and the legacy families: the buffer equals its copy after Unmarshal / proto.Unmarshal, then it is overwritten with 0x00, 0xff and an address-dependent pattern: observations AND deep digest unchanged; marshal clause: the bytes returned by Marshal / proto.Marshal are overwritten with the same patterns: observations, digest and a second Marshal unchanged. A state is a distinct (stream, layout) resp. build input"
 	r.Assumptions = []string{"retention is detected through a deep digest of everything reachable from the instance (reflect + unsafe, unexported fields included): memory reachable only through an uintptr or a closure would be missed", "loadability itself is decided by C05/C06"}
 	k := 3
 	if thorough {
@@ -271,7 +271,7 @@ func runC20(r *h.Run) {
 	scs := scaffoldSet(sp, thorough, []int{2}, func(n string) bool {
 		return n == "lift3" || n == "bigroot-in" || n == "big2-in" || n == "short2-mixed" || n == "shift3" || (thorough && (n == "short2" || n == "bigroot-mid" || n == "shift64"))
 	})
-	encs := []string{"I32", "String16", "Bytes3", "VarEnc"}
+	encs := []string{"I32", "String16", "Bytes3", "VarEnc", "LenBytes", "DummyB"}
 	work := func(w *h.Worker, x interface{}) {
 		u := x.(c20Unit)
 		w.Begin(func() string { return fmt.Sprintf("C20 %s keys=%d", u.sc.Name, len(u.sc.Keys)) })
